@@ -1129,6 +1129,32 @@ func (env *Env) evalBuiltinCall(name string, argsE []*Expr) (*Val, error, bool) 
 		}
 		fn := c.declFun(fmt.Sprintf("jsonErr$%d", tid), []string{sortStr}, sortIface)
 		return &Val{T: "(" + fn + " " + sv.T + ")", Typ: types.Universe.Lookup("error").Type(), ConstLen: -1}, nil, true
+	case "jsonMapHas", "jsonMapGet":
+		// contents of a map decoded from JSON text into an empty map of type T
+		sv, err := arg(0)
+		if err != nil {
+			return nil, err, true
+		}
+		kv, err := arg(1)
+		if err != nil {
+			return nil, err, true
+		}
+		t, err := env.res.resolveTypeSrc(argsE[2].TypeSrc)
+		if err != nil {
+			return nil, err, true
+		}
+		mt, ok := t.Underlying().(*types.Map)
+		if !ok {
+			return nil, fmt.Errorf("%s: not a map type", name), true
+		}
+		if kv, err = env.fitTo(kv, mt.Key()); err != nil {
+			return nil, err, true
+		}
+		kf, vf := jsonMapFuns(c, t)
+		if name == "jsonMapHas" {
+			return boolVal(sel("("+kf+" "+sv.T+")", kv.T)), nil, true
+		}
+		return &Val{T: ite(sel("("+kf+" "+sv.T+")", kv.T), sel("("+vf+" "+sv.T+")", kv.T), c.zero(mt.Elem())), Typ: mt.Elem(), ConstLen: -1}, nil, true
 	case "deref":
 		v, err := arg(0)
 		if err != nil {
